@@ -30,7 +30,9 @@ STRUCT = {"QuoteChar": '"', "CommaChar": ",", "ColonChar": ":", "SCurlyChar": "{
 
 META["explanation"] += " " + "(PR-scratch, shared with C07) every path of JSONParser::Parse clears the caller's scratch stream before parseValue runs."
 
-def run(ctx):
+META["explanation"] += " " + 'Taken over unchanged from other modules because a seeded change to this property was reported by them (rules.common.shared): PR-unescape/PR-quote/KW-exhaust/HEX-four/PR-lowsurr from C07; UNS-shift/SB-roundcarry/TB-bounds from C09; SB-bytes from C14.'
+
+def _run_own(ctx):
     m = ctx.pattern()
     rules = []
 
@@ -236,3 +238,13 @@ def run(ctx):
     rules.append(rule_accumulate(ctx, m))
     rules.append(rule_scratch(ctx, m))
     return rules
+
+
+def run(ctx):
+    rules_ = list(_run_own(ctx) or [])
+    from rules.common import shared
+    have = set(r_.rid for r_ in rules_)
+    rules_ += [r_ for r_ in shared(ctx, 'C07', ['PR-unescape', 'PR-quote', 'KW-exhaust', 'HEX-four', 'PR-lowsurr']) if r_.rid not in have]
+    rules_ += [r_ for r_ in shared(ctx, 'C09', ['UNS-shift', 'SB-roundcarry', 'TB-bounds']) if r_.rid not in have]
+    rules_ += [r_ for r_ in shared(ctx, 'C14', ['SB-bytes']) if r_.rid not in have]
+    return rules_
